@@ -15,8 +15,16 @@ Record cert := mkcert { c_fp : bytes; c_names : list bytes; c_exp : Z }.
 
 (** [CertifiedKeyWrapper::try_from] lower-cases the names it keeps *)
 Definition lower (c : N) : N := if (65 <=? c)%N && (c <=? 90)%N then (c + 32)%N else c.
+Fixpoint has_slash (l : bytes) : bool :=
+  match l with [] => false | x :: r => N.eqb x SLASH || has_slash r end.
+
+(** ... keeps the names in their ASCII form ([norm] = [idna::domain_to_ascii],
+    an oracle; lower-casing on ASCII names) and drops the names that contain a
+    '/' (not DNS names; the trie would read them as regex segments) *)
+Definition parsed_cert_with (norm : bytes -> bytes) (fp : bytes) (names : list bytes) (exp : Z) : cert :=
+  mkcert fp (map norm (filter (fun n => negb (has_slash n)) names)) exp.
 Definition parsed_cert (fp : bytes) (names : list bytes) (exp : Z) : cert :=
-  mkcert fp (map (map lower) names) exp.
+  parsed_cert_with (map lower) fp names exp.
 
 Definition entry := (bytes * Z)%type.                       (* (fingerprint, expiration) *)
 
